@@ -122,7 +122,7 @@ def main():
         }],
         "checks": checks,
         "not_applicable": [{"property_id": p, "reason": NOT_BUILT_REASON} for p in ALL if p not in CHECKS],
-        "notes": "Every check: exit 0 = held on everything explored, 1 = VIOLATION line with replay file, 2 = inconclusive (build failure / harness bug / watchdog / death of the harness process). VERIF_SEED selects the generator seed (default 1); every run is a pure function of (tree, seed, tier). known_findings.json lists recorded (known) and repaired (fixed) defects and is never written at run time. The thorough commands of C04, C05, C10, C14, C16, C17 additionally build harness/fuzz with cargo +nightly fuzz (about 4 minutes, offline) and run libFuzzer slices; VERIF_NO_FUZZ=1 skips them. seeded/<name>/ holds the seeded changes used to measure sensitivity (patch.diff, demo.rs, meta.json, detected.json); tools/run_seeds.sh applies one to /repo, runs the owning quick check and reverts.",
+        "notes": "Every check: exit 0 = held on everything explored, 1 = VIOLATION line with replay file, 2 = inconclusive (build failure / harness bug / watchdog / death of the harness process). VERIF_SEED selects the generator seed (default 1); every run is a function of (tree, seed, tier) only, except that rPGP itself stamps default signatures with the wall clock, which changes some signature bytes (and with them, by one or two, the count of distinct non-trivial cases) but no verdict. known_findings.json lists recorded (known) and repaired (fixed) defects and is never written at run time. The thorough commands of C04, C05, C10, C14, C16, C17 additionally build harness/fuzz with cargo +nightly fuzz (about 4 minutes, offline) and run libFuzzer slices; VERIF_NO_FUZZ=1 skips them. seeded/<name>/ holds the seeded changes used to measure sensitivity (patch.diff, demo.rs, meta.json, detected.json); tools/run_seeds.sh applies one to /repo, runs the owning quick check and reverts.",
     }
     with open(os.path.join(ROOT, "MANIFEST.json"), "w") as f:
         json.dump(m, f, indent=1)
